@@ -327,6 +327,9 @@ def run(ctx, repo, tier):
         ctx.check(slices == {(0, 3), (3, 7)}, "LAYOUT", "C09.reader.pts",
                   "the pseudotrajectory reads position = row[:3] and quaternion = row[3:] (same split as the writer)", gen.where,
                   witness=f"column ranges read from a row: {sorted(slices)}")
+    # ------------------------------------------------------------------ inherited: the radii in the rows are the parsed distances x10, unquantised (C16)
+    from .C16 import radii_conversion
+    radii_conversion(ctx, repo, "C09")
     ctx.require_instances("LAYOUT", 10, "layout obligations")
     ctx.trust(*META["trusted"])
     ctx.assume(*META["assumptions"])
